@@ -33,7 +33,9 @@ PARTIAL = ("rounding error of the floating-point sums is not modelled (exact rat
            "a block (NoSliver) - such slivers are judged by the oracle only; resampleStepwise theorems are for strictly "
            "increasing meshes whose output cells start inside the input range (cells left of the first input point follow "
            "Python negative-index slicing and are tied by correspondence only); peak parameters only for non-negative "
-           "values (known finding F8)")
+           "values (known finding F8); the component volume caches are modelled for the mass-conserving height change "
+           "(VComp / clearCache / setHeightOne, one nuclide, component by component) - cache invalidation elsewhere "
+           "(temperature or dimension changes) is exercised by the oracle only")
 ASSUMPTIONS = [
     "Block.setNumberDensities / getNumberDensity on a homogenized block store and return the mapped densities "
     "(checked on every case to 1e-9 relative)",
@@ -2182,7 +2184,12 @@ def run(ctx):
                 "convert() + applyStateToOriginal() (neutronics / neutronics with minimum mesh size / gamma converter / "
                 "non-uniform-assembly flags) on the detailedAxialExpansion core perturbed by axial expansions of random "
                 "assemblies (thorough: also the reference core); per assembly and direction up to three scalar parameters of "
-                "each kind and the 3-vector parameters chosen among those the converter itself lists.")
+                "each kind and the 3-vector parameters chosen among those the converter itself lists. Cache states "
+                "(run_cache_states; also applied before the calls of the setHeight / setBlockMesh / re-meshing / converter "
+                "streams): the component volume caches of a block are brought into all-valid / none-valid / one-invalid / "
+                "one-valid / random-subset / random query-invalidate-prefix states (optionally after a temperature change of "
+                "one component) before Block.setHeight(conserveMass=True) and Assembly.setBlockMesh; per-nuclide masses summed "
+                "over components, and equality with twins in the all-cached and none-cached states.")
 
 
 def search(ctx, disagreements, broken):
